@@ -120,7 +120,7 @@ def gen_table(tier, seed):
             faults = []
             if r.random() < 0.45:
                 for _ in range(r.choice([1, 1, 1, 2])):
-                    k = r.choice(["drop_row", "dup_row", "relabel", "blank", "drop_col", "extra_valcol", "dup_and_drop"])
+                    k = r.choice(["drop_row", "dup_row", "relabel", "blank", "drop_col", "extra_valcol", "dup_and_drop", "extra_textcol"])
                     faults.append({"kind": k, "pos": r.randrange(1000), "col": r.randrange(4),
                                    "change_value": r.random() < 0.5})
                     stats["fault_kinds"][k] = stats["fault_kinds"].get(k, 0) + 1
